@@ -292,6 +292,12 @@ def profile(kind: str):
         return P(max_stmts=6, functions=False)
     if kind == "funcs":
         return P(max_stmts=5, functions=True)
+    if kind == "tco0":
+        return P(max_stmts=4, functions=True, max_funcs=3, procedures_only=True, no_params=True, tco_safe=True, for_list=False, max_depth=1)
+    if kind == "procs0":
+        return P(max_stmts=4, functions=True, max_funcs=3, procedures_only=True, no_params=True, for_list=False, max_depth=1)
+    if kind == "procs":
+        return P(max_stmts=4, functions=True, max_funcs=3, procedures_only=True, for_list=False, max_depth=1)
     if kind == "tco":
         return P(max_stmts=4, functions=True, max_funcs=3, tco_safe=True, for_list=False, index_lists=False, max_depth=1)
     if kind == "deep":
